@@ -300,7 +300,7 @@ func (g *forGen) forcedEmitting(depth int, counters []string, budget int) (rc.It
 // ForProgram draws a program with FOR/ROF blocks (see DESIGN.md C08 for what is kept out and why).
 func ForProgram(t *rapid.T, cfg AsmConfig) (rc.Program, ForInfo) {
 	g := &forGen{t: t, cfg: cfg, equVal: map[string]int64{}}
-	g.noConst = cfg.CoreSize >= 1<<30 || cfg.Length >= 1<<30 || cfg.Processes >= 1<<30 || cfg.Distance >= 1<<30
+	g.noConst = cfg.NoConstCounts || cfg.CoreSize >= 1<<30 || cfg.Length >= 1<<30 || cfg.Processes >= 1<<30 || cfg.Distance >= 1<<30
 	var items []rc.Item
 	ne := rapid.IntRange(0, 3).Draw(t, "nequ")
 	if Rare(t, "equheavy", 3) {
